@@ -77,6 +77,7 @@ type LoopCtx struct {
 	Havocked  *WriteLog
 	HeadHeapSnap map[int]Val
 	HeadGSnap    map[string]*Term
+	MaxCell      int // highest cell id allocated before the loop head was (re)entered symbolically
 }
 
 type Frame struct {
